@@ -1231,6 +1231,24 @@ Theorem failed_probe_leaves_no_trace w r : fst (step_event key_of compile w (EPr
 Proof. reflexivity. Qed.
 End Probe.
 
+Section Promise.
+Variable key_of : fingerprint -> key.
+Variable compile : request -> N -> cresult.
+
+Theorem response_implies_stored c0 h0 r w1 o :
+  do_request key_of compile (run_events key_of compile (empty_world c0) h0) r = (w1, o) ->
+  oc_stored o = true ->
+  cached key_of w1 r = true /\ alookup (req_path key_of r) (w_content w1) <> None /\
+  handles (w_store w1) = [] /\ pending_size (w_store w1) = 0.
+Proof.
+  intros D St.
+  assert (Hw : winv (run_events key_of compile (empty_world c0) h0)) by (apply run_events_winv, winv_empty).
+  destruct (request_stored key_of compile _ _ _ _ Hw D St) as (Hin & e & He & _).
+  destruct (do_request_winv key_of compile _ _ _ _ Hw D) as [(Hi & Hq & _) _].
+  split; [apply amem_In, Hin|split; [congruence|split; [exact Hq|apply quiet_pending; auto]]].
+Qed.
+End Promise.
+
 (* ====================================================================== *)
 (* concrete instances used by the non-vacuity examples of Properties/C03.v *)
 (* ====================================================================== *)
